@@ -5,6 +5,7 @@ import UsualProofs.C14.Num
 import UsualProofs.C14.Bits
 import UsualProofs.C14.Inet
 import UsualProofs.C14.Inet6
+import UsualProofs.C14.Inet6rt
 import UsualProofs.C14.Libc
 import UsualProofs.C14.Fnmatch
 /-!
@@ -21,7 +22,8 @@ Partial (named `…_partial`, full statement in the comment next to it):
 * `fnmatch_sound_complete` is about the *reference* matcher; the single-retry loop `wfn` (mirror
   of `wfnmatch`) is compared with it by the harness, not proved equal; with FNM_PERIOD the mirror
   is the specification;
-* `pton6_spec_partial`: result shape + concrete forms, no full grammar theorem.
+* `pton6_spec_partial`: result shape + concrete forms (and the full round trip `pton_ntop6`),
+  no theorem about the complete input grammar.
 -/
 namespace UsualProps.C14
 open Usual.C14 UsualProofs.C14
@@ -332,11 +334,20 @@ theorem ntop6_fits_tmp (a : Bytes) : (ntop6Text a).length + 1 ≤ 46 := by
 
 example : (ntop6Text (List.replicate 16 255)).length = 39 := by decide
 
-/-- PARTIAL.  Proved: whatever `inet_pton6` accepts is sixteen bytes; concrete forms below.
-    Not proved: the full statement "pton6 accepts exactly the RFC 4291 §2.2 text forms (1–4 hex
-    digits per group, one `::`, optional dotted-quad tail) and yields their value", and the round
-    trip `pton6 (ntop6Text a) = some a` (checked by execution on all 2^8 zero/non-zero shapes ×
-    value classes in every run of the check). -/
+/-- `inet_pton6(inet_ntop6(a)) = a` for EVERY IPv6 address (all three text shapes the code
+    produces: eight groups, `P::Q`, `::[ffff:]a.b.c.d`) -/
+theorem pton_ntop6 (a : Bytes) (h16 : a.length = 16) (hb : ∀ x ∈ a, x < 256) (t : Bytes) :
+    pton6 (ntop6Text a ++ 0 :: t) = some a :=
+  pton6_ntop6 a h16 hb t
+
+example : pton6 (ntop6Text [0x20, 0x01, 0x0d, 0xb8, 0, 0, 0, 0, 0, 1, 0, 0, 0, 0, 0, 1] ++ [0]) =
+    some [0x20, 0x01, 0x0d, 0xb8, 0, 0, 0, 0, 0, 1, 0, 0, 0, 0, 0, 1] :=
+  pton_ntop6 _ rfl (by decide) []
+
+/-- PARTIAL.  Proved: whatever `inet_pton6` accepts is sixteen bytes (plus the round trip
+    `pton_ntop6` above and the concrete forms below).  Not proved: the full grammar statement
+    "pton6 accepts exactly the RFC 4291 §2.2 text forms (1–4 hex digits per group, upper or lower
+    case, leading zeros, at most one `::`, optional dotted-quad tail) and yields their value". -/
 theorem pton6_spec_partial (s v : Bytes) (h : pton6 s = some v) : v.length = 16 :=
   pton6_sound s v h
 
